@@ -7,6 +7,7 @@ pub mod source;
 pub mod lua;
 pub mod registry;
 
+pub mod c01_compute;
 pub mod c02_fuse;
 pub mod c02_prec;
 pub mod c08_scalar;
